@@ -773,16 +773,30 @@ func c15Invite(c *mon.Ctx, r *gen.Rand, sc *simScenario, b *simBranch) {
 			membership = "join" // irrelevant for an unknown room
 		}
 		supplied := r.Chance(0.5)
+		oddState := ""
+		if supplied && r.Chance(0.5) {
+			oddState = `{"type":"m.room.name","state_key":"","sender":"` + inviter + `","content":{"name":"lobby","order":` + gen.Pick(r, []string{"1.5", "1e2", "9007199254740992", "1E400"}) + `}}`
+		}
 		name := "invite:" + vecName(names, vec)
-		c.Case(name, map[string]any{"version": s.ver, "guards": vecName(names, vec), "known_room": known, "current_membership": membership, "stripped_state_supplied": supplied, "junk_entry_under_local_key": junk, "signature_fault": sigFault}, func() {
+		c.Case(name, map[string]any{"version": s.ver, "guards": vecName(names, vec), "known_room": known, "current_membership": membership, "stripped_state_supplied": supplied, "odd_stripped_state": oddState, "junk_entry_under_local_key": junk, "signature_fault": sigFault}, func() {
 			q := &c15querier{state: b.state, membership: membership, known: known}
 			var stripped []gmsl.InviteStrippedState
 			if supplied {
 				stripped = []gmsl.InviteStrippedState{gmsl.NewInviteStrippedState(s.create)}
+				if oddState != "" {
+					// what the inviting server sent as invite_room_state is its own text
+					var odd gmsl.InviteStrippedState
+					if json.Unmarshal([]byte(oddState), &odd) == nil {
+						stripped = append(stripped, odd)
+					}
+				}
 			}
 			out, err := gmsl.HandleInvite(context.Background(), gmsl.HandleInviteInput{RoomID: roomID, RoomVersion: s.ver, InvitedUser: spec.NewUserIDOrPanic(invitee, true), InvitedSenderID: spec.SenderID(invitee),
 				InviteEvent: ev, StrippedState: stripped, KeyID: gmsl.KeyID(inviteeID.KeyID), PrivateKey: inviteeID.Priv, Verifier: ring, RoomQuerier: q, MembershipQuerier: q, StateQuerier: q, UserIDQuerier: userIDForSender})
-			c15verdict(c, "invite", name, allTrue(vec), err == nil, vecName(names, vec), s.ver)
+			// (a stripped state the room version's canonical-JSON rule refuses cannot be put into an event of that version:
+			// such an invite is refused as a whole)
+			stateFits := !(supplied && oddState != "" && s.t.EnforceCanon)
+			c15verdict(c, "invite", name, allTrue(vec) && stateFits, err == nil, vecName(names, vec), s.ver)
 			if allTrue(vec) && err == nil {
 				for _, f := range []string{"IsKnownRoom", "CurrentMembership", "GetState", "UserIDQuerier", "Verifier"} {
 					fq := &c15querier{state: b.state, membership: membership, known: known, fail: f}
@@ -822,6 +836,15 @@ func c15Invite(c *mon.Ctx, r *gen.Rand, sc *simScenario, b *simBranch) {
 			}
 			if !sameSignedContent(out.JSON(), before, s.t) {
 				c.Failf("invite:event-modified", "HandleInvite returned a modified event\n in  %s\n out %s", before, out.JSON())
+			}
+			// what the handler returns is an event like any other: the untrusted parser takes it, and signing it once
+			// more does not crash
+			if _, perr := s.impl.NewEventFromUntrustedJSON(out.JSON()); perr != nil {
+				c.Failf("invite:returned-event-refused-by-the-parser", "v%s: the event HandleInvite returns (stripped state %s) is refused by NewEventFromUntrustedJSON: %v", s.ver, oddState, perr)
+			}
+			if site, msg, pan := mon.Guard(func() { _ = out.Sign("third.example", gmsl.KeyID(inviteeID.KeyID), inviteeID.Priv).JSON() }); pan {
+				c.Failf("invite:returned-event-cannot-be-signed:"+site, "v%s: Sign on the event HandleInvite returns (stripped state %s) panics: %s", s.ver, oddState, msg)
+				return
 			}
 			ov := ref.MustParse(out.JSON())
 			if st := ov.Get("unsigned").Get("invite_room_state"); st == nil || st.K != ref.Arr || len(st.A) == 0 {
